@@ -280,7 +280,7 @@ def case_filter_symbol(ftype, order, field_type):
     return CaseResult(fails=fails, states=N**3 + 2, transitions=3, traces=3, outcome=f"{tag}:{order}:{round(float(s.min()), 6)}", extra={"symbol_min": float(s.min()), "symbol_max": float(s.max())})
 
 
-def case_filter_history(ftype, order, field_type, dtype, poison):
+def case_filter_history(ftype, order, field_type, dtype, poison, depth=3):
     import sopht.numeric.eulerian_grid_ops as spne
 
     real_t = np.dtype(dtype).type
@@ -319,7 +319,7 @@ def case_filter_history(ftype, order, field_type, dtype, poison):
             return [Fail(f"{tag}:buffer-dependence", "filter result depends on what the work buffers held before", history=list(hist) + [ev], order=order, finite=bool(np.all(np.isfinite(s["out"]))))]
         return []
 
-    res = explore.bfs(build, ["A", "B", "poison-flux", "poison-field"], apply_event, key, check, 3)
+    res = explore.bfs(build, ["A", "B", "poison-flux", "poison-field"], apply_event, key, check, depth)
     return CaseResult(fails=res.fails, states=res.states, transitions=res.transitions, traces=res.transitions, outcome=f"{tag}:{order}:{res.states}")
 
 
@@ -352,7 +352,7 @@ def run(r) -> None:
     r.run_cases("boundary-damping", "damping", damp, chunksize=8)
     orders = (1, 2, 3) if quick else (1, 2, 3, 4)
     r.run_cases("filter-symbol", "filter_symbol", [dict(ftype=t, order=o, field_type=ft) for t in ("multiplicative", "convolution") for o in orders for ft in ("scalar", "vector")])
-    r.run_cases("filter-history", "filter_history", [dict(ftype=t, order=o, field_type=ft, dtype=dt, poison=p) for t in ("multiplicative", "convolution") for o in (1, 2) for ft in ("scalar", "vector")
+    r.run_cases("filter-history", "filter_history", [dict(ftype=t, order=o, field_type=ft, dtype=dt, poison=p, depth=3 if quick else 5) for t in ("multiplicative", "convolution") for o in ((1, 2) if quick else (1, 2, 3, 4)) for ft in ("scalar", "vector")
                                                      for dt in dts for p in (float("nan"), 1e30)])
     r.bounds = {"brinkmann": {"u,u_b": U_ALPHA, "lambda": LAM, "chi": CHI}, "level_set": "phi/eps in {-2,-1-ulp,-1,-1+ulp,-0.9,-0.5,-0.25,-1e-3,-ulp,0,ulp,1e-3,0.25,0.5,0.9,1-ulp,1,1+ulp,2}, eps in {0.1, 1/3}",
                 "damping_widths": list(range(7)), "filter_orders": list(orders), "filter_history_depth": 3}
